@@ -169,7 +169,7 @@ def step (line : String) : String :=
         let ma2 ← ma2.toNat?; let mi2 ← mi2.toNat?; let pa2 ← pa2.toNat?
         let pre2 ← unhex pre2; let build2 ← unhex build2
         let v : Sem.Ver := ⟨ma, mi, pa, pre, build⟩; let w : Sem.Ver := ⟨ma2, mi2, pa2, pre2, build2⟩
-        pure s!"{v.compare w} {verStr (v.latest w)}").getD bad
+        pure s!"{v.compare w} ok {verStr (v.latest w)}").getD bad
   | ["sem.cmpstr", entry, maxlen, a, b] =>
     (do let e ← semEntry entry; let ml ← maxlen.toNat?; let a ← unhex a; let b ← unhex b
         pure (outcomeStr toString (Sem.compareStr ml e a b))).getD bad
